@@ -33,10 +33,11 @@ const (
 	OpLock
 	OpRLock
 	OpAtomic
+	OpWait // enabled while the posted condition holds
 )
 
 func (o Op) String() string {
-	return [...]string{"none", "start", "yield", "lock", "rlock", "atomic"}[o]
+	return [...]string{"none", "start", "yield", "lock", "rlock", "atomic", "wait"}[o]
 }
 
 // MutexState is the scheduler's view of a shimmed mutex.
@@ -54,7 +55,9 @@ type Thread struct {
 	op      Op
 	mu      *MutexState
 	label   string
+	cond    func() bool
 	harness bool
+	daemon  bool
 }
 
 // VTimer is a virtual timer.
@@ -116,6 +119,10 @@ type Exec struct {
 	stepEvents      int
 	Log             []string
 	UserData        interface{}
+	lastDumpCount   int  // runtime.NumGoroutine() at the last full dump
+	released        *Thread
+	FullDumps       int
+	FastSteps       int
 	stackBuf        []byte
 }
 
@@ -287,6 +294,23 @@ func park(t *Thread) {
 //go:noinline
 func publish(t *Thread) { t.status = 1 }
 
+// WaitUntil parks the calling harness thread until the scheduler finds cond
+// true at a quiescent moment and chooses the thread.
+//
+//go:norace
+func WaitUntil(label string, cond func() bool) {
+	x := cur
+	if x == nil || !x.active || x.draining {
+		return
+	}
+	t := x.self()
+	if t == nil {
+		return
+	}
+	t.op, t.mu, t.label, t.cond = OpWait, nil, label, cond
+	park(t)
+}
+
 // Yield is a harness scheduling point.
 //
 //go:norace
@@ -301,6 +325,15 @@ func (x *Exec) Go(name string, fn func()) {
 	x.threads[x.nthreads] = t
 	x.nthreads++
 	go threadMain(x, t, fn)
+}
+
+// GoDaemon starts a harness thread that is allowed to stay blocked at the end
+// of the execution (a service loop).
+//
+//go:norace
+func (x *Exec) GoDaemon(name string, fn func()) {
+	x.Go(name, fn)
+	x.threads[x.nthreads-1].daemon = true
 }
 
 //go:norace
@@ -419,12 +452,58 @@ func (x *Exec) describe(it enabledItem) string {
 
 // waitQuiescent yields until no goroutine created since the execution began is busy.
 //
+// fastQuiescent: the cheap test that avoids a full goroutine dump.  It applies
+// when the last action released a thread, nothing that can wake a goroutine
+// outside the scheduler's view was noted in this step (channel close, timer
+// delivery, harness event), no managed thread is blocked outside a point, and
+// the number of goroutines is what it was at the last full dump.  Then the
+// only goroutine that ran is the released thread (and goroutines it created,
+// which would change the count), and it has parked or finished.
+//
+//go:norace
+func (x *Exec) fastQuiescent() bool {
+	t := x.released
+	if t == nil || x.stepEvents != 0 || x.lastDumpCount == 0 {
+		return false
+	}
+	for round := 0; round < 4; round++ {
+		runtime.Gosched()
+		if t.status == 1 || t.status == 2 {
+			break
+		}
+	}
+	if t.status == 2 {
+		// its goroutine is exiting: the count is about to drop by one; take the slow path
+		return false
+	}
+	if t.status != 1 {
+		return false
+	}
+	if runtime.NumGoroutine() != x.lastDumpCount {
+		return false
+	}
+	for i := 0; i < x.nthreads; i++ {
+		if s := x.threads[i].status; s == 0 {
+			return false
+		}
+	}
+	// one more yield so that the released thread is really blocked on its gate
+	runtime.Gosched()
+	return true
+}
+
+// waitQuiescent yields until no goroutine created since the execution began is busy.
 //go:norace
 func (x *Exec) waitQuiescent() bool {
+	if x.fastQuiescent() {
+		x.FastSteps++
+		return true
+	}
 	deadline := time.Now().Add(20 * time.Second)
 	for spin := 0; ; spin++ {
 		runtime.Gosched()
 		n := runtime.Stack(x.stackBuf, true)
+		x.FullDumps++
 		if n >= len(x.stackBuf)-1 {
 			panic("sched: goroutine dump truncated (too many live goroutines)")
 		}
@@ -483,6 +562,7 @@ func (x *Exec) waitQuiescent() bool {
 					t.status = 2
 				}
 			}
+			x.lastDumpCount = runtime.NumGoroutine()
 			return true
 		}
 		if spin > 50 {
@@ -502,6 +582,8 @@ func (x *Exec) opEnabled(t *Thread) bool {
 		return t.mu.Owner == 0 && t.mu.Readers == 0
 	case OpRLock:
 		return t.mu.Owner == 0
+	case OpWait:
+		return t.cond == nil || t.cond()
 	}
 	return true
 }
@@ -614,8 +696,10 @@ func (x *Exec) Run() {
 			}
 			t.status = 0
 			x.last = t
+			x.released = t
 			t.gate <- struct{}{}
 		case it.vt != nil:
+			x.released = nil
 			vt := it.vt
 			vt.State = 1
 			if vt.Due > x.now {
@@ -631,6 +715,7 @@ func (x *Exec) Run() {
 				}
 			}
 		default:
+			x.released = nil
 			it.ev.done = true
 			x.stepEvents++
 			it.ev.Do()
@@ -639,7 +724,7 @@ func (x *Exec) Run() {
 	// classify the end
 	for i := 0; i < x.nthreads; i++ {
 		t := x.threads[i]
-		if t.status == 1 && !x.opEnabled(t) {
+		if t.status == 1 && !t.daemon && !x.opEnabled(t) {
 			x.Deadlock += fmt.Sprintf("%s blocked at %s:%s; ", t.Name, t.op, t.label)
 		}
 	}
@@ -703,7 +788,7 @@ func (x *Exec) Finish() {
 func (x *Exec) AllHarnessDone() bool {
 	for i := 0; i < x.nthreads; i++ {
 		t := x.threads[i]
-		if t.harness && t.status != 2 {
+		if t.harness && !t.daemon && t.status != 2 {
 			return false
 		}
 	}
@@ -711,6 +796,7 @@ func (x *Exec) AllHarnessDone() bool {
 }
 
 // LiveStacks returns the stack dump of goroutines created during the execution that still exist.
+//
 //go:norace
 func (x *Exec) LiveStacks() string {
 	n := runtime.Stack(x.stackBuf, true)
